@@ -108,6 +108,8 @@ type shape struct {
 	paceClose         bool // an end closes / fails while a chunk read from the other end is being paced out
 	routeFail         bool // the routing store fails deletes
 	statCase          bool // the statistics backend stalls, and the end that then closes has sent before
+	errX              bool // an end fails for good with an error that says Timeout() or Temporary() about itself
+	sErrX             bool // ... the source end does
 	statFlow          bool // a chunk is written while the statistics backend does not answer (the bytes must still get through)
 	hold              bool // the tunnel outlives the heartbeat timeout
 	tFault            bool // a fault on the target's connection that only a fake connection can play
@@ -144,6 +146,10 @@ func shapeOf(g *genLine) shape {
 			}
 			if st.W == "data" {
 				s.plain = false
+				s.tFault = s.tFault || st.E == "T"
+			}
+			if st.X != "" {
+				s.errX, s.sErrX = true, s.sErrX || st.E == "S"
 				s.tFault = s.tFault || st.E == "T"
 			}
 		case "arm", "glitch", "replace", "closeold", "extclose", "timeout":
@@ -227,7 +233,7 @@ func withStatStall(g *genLine) ([]step, bool) {
 
 // keepPermille: share of the enumerated scripts outside the core set that is driven (seeded choice).
 func keepPermille(env *fw.Env, src string) uint64 {
-	q := map[string]uint64{"gen:S1": 6, "gen:S2": 10, "gen:repl": 30, "gen:S2full": 10, "gen:slow": 1000}[src]
+	q := map[string]uint64{"gen:errc": 4, "gen:S1": 6, "gen:S2": 10, "gen:repl": 30, "gen:S2full": 10, "gen:slow": 1000}[src]
 	if q == 0 {
 		return 1000 // simulation output is driven entirely
 	}
@@ -249,6 +255,11 @@ func expand(env *fw.Env, src string, raw json.RawMessage) []json.RawMessage {
 	}
 	if g.Src == "direct" {
 		g.Src = "" // (the canonical form of the scripts that existed before source kinds is unchanged)
+	}
+	for i := range g.Steps {
+		if g.Steps[i].A == "error" && g.Steps[i].X == "plain" {
+			g.Steps[i].X = "" // (likewise: an error that says nothing about itself is the error there always was)
+		}
 	}
 	// TLC's ToJson does not fix the order of record fields: hash (and de-duplicate) the canonical form
 	canon := string(fw.MustJSON(g))
@@ -326,7 +337,7 @@ func expand(env *fw.Env, src string, raw json.RawMessage) []json.RawMessage {
 	} else if src == "gen:xnode" || src == "gen:fwd" {
 		// the target on another node / this server as the target's node: free running only (one end is a
 		// TCP connection), one script per order of the environment steps, nothing a real socket cannot be told to do
-		if s.tFault || s.replace || s.timeout || !s.attach || s.fault {
+		if s.tFault || s.replace || s.timeout || !s.attach || s.fault || (src == "gen:fwd" && s.sErrX) {
 			return nil
 		}
 		var steps []step
@@ -359,7 +370,7 @@ func expand(env *fw.Env, src string, raw json.RawMessage) []json.RawMessage {
 		// the target (gen:pkt) / the source (gen:srcpkt; both when the script says src = pkt) through the
 		// packet path; the scripts that outlive the heartbeat timeout always (they cost a second each), a
 		// share of the others
-		if s.timeout || (!s.hold && h%1000 >= 150) || (s.hold && env.Tier != "thorough" && (len(g.Steps) > 5 || s.ending)) ||
+		if s.timeout || (!s.hold && h%1000 >= 150) || (s.errX && len(g.Steps) > 5 && h%1000 >= 40) || (s.hold && env.Tier != "thorough" && (len(g.Steps) > 5 || s.ending)) ||
 			(s.hold && env.Tier == "thorough" && len(g.Steps) > 5 && h%1000 >= 50) {
 			return nil
 		}
@@ -369,6 +380,13 @@ func expand(env *fw.Env, src string, raw json.RawMessage) []json.RawMessage {
 			(s.stallCase && len(g.Steps) <= 5 && (env.Tier == "thorough" || onlyClasses(&g, "one", "Bp1")))) {
 		// the minimal scripts of two environment faults, always: the routing store refuses deletes when
 		// the tunnel is torn down; an end that does not drain while the other end sends and goes away
+	} else if src == "gen:errc" {
+		// the classes of permanent errors: only the scripts in which an end fails with one; the minimal
+		// ones (the failure with the other end idle / having sent / before the attach) always
+		minimal := len(g.Steps) <= 5 && !s.fault && (g.Lim == "none" || env.Tier == "thorough")
+		if !s.errX || s.timeout || (!minimal && h%1000 >= keepPermille(env, src)) {
+			return nil
+		}
 	} else if src == "gen:S1" && s.statFlow && s.attach && !s.ending && s.lastGate && s.nR == s.want && len(g.Steps) <= 6 &&
 		(g.Lim == "none" || env.Tier == "thorough") && onlyClasses(&g, "one", "Bp1") {
 		// the statistics backend does not answer while bytes flow: the pipe must not depend on it. Gated as
@@ -423,12 +441,12 @@ func expand(env *fw.Env, src string, raw json.RawMessage) []json.RawMessage {
 		out = append(out, fw.MustJSON(b))
 	}
 	// the same script without gates (the copiers race the script), for a share of them
-	if core || (h>>12)%3 == 0 || g.Lim == "slow" {
+	if core || (h>>12)%3 == 0 || g.Lim == "slow" || (src == "gen:errc" && len(g.Steps) <= 5 && !s.fault) {
 		out = append(out, mk("free", 1))
 		// Scripts in which an end is already closed / failed when the target attaches make one copier
 		// finish (and Bridge.Close run) while the other goroutine is still starting: a scheduling race
 		// no gate can pin down. They are executed raceLoops times (cheap: unpaced, ~1 ms each).
-		if s.endBeforeAttach && !paced && src != "gen:pkt" && src != "gen:srcpkt" {
+		if s.endBeforeAttach && !paced && src != "gen:pkt" && src != "gen:srcpkt" && src != "gen:errc" {
 			var b beh
 			json.Unmarshal(out[len(out)-1], &b)
 			b.Loops = raceLoops
@@ -563,7 +581,31 @@ func main() {
 		ModelJobs: func(env *fw.Env) []fw.TLCJob {
 			mc := func(name, cfg, maxs, repl, faults, c string) fw.TLCJob {
 				return fw.TLCJob{Name: name, Module: "Bridge", Cfg: cfg, Timeout: 14 * time.Minute,
-					Consts: map[string]string{"MAXS": maxs, "REPL": repl, "FAULTS": faults, "CLS": c, "AK": `{"local"}`, "HOLD": "FALSE", "SK": `{"direct"}`}}
+					Consts: map[string]string{"MAXS": maxs, "REPL": repl, "FAULTS": faults, "CLS": c, "AK": `{"local"}`, "HOLD": "FALSE", "SK": `{"direct"}`,
+						"EC": `{"plain"}`, "LIMS": all, "POLL": "FALSE"}}
+			}
+			// every class of permanent error (what it says about itself: nothing / Timeout() / Temporary())
+			// ... and polling transports (every idle Read returns a temporary timeout)
+			classes := func(j fw.TLCJob) fw.TLCJob {
+				j.Consts["EC"], j.Consts["POLL"] = `{"plain", "tmo", "tmp"}`, "TRUE"
+				return j
+			}
+			tmo := func(j fw.TLCJob) fw.TLCJob { j.Consts["EC"], j.Consts["POLL"] = `{"plain", "tmo"}`, "TRUE"; return j }
+			// the limit class is chosen once, in Init: the state space is the disjoint union over the classes, a
+			// large job is split along them so that each part stays well inside its timeout on a loaded machine
+			split := func(j fw.TLCJob, parts ...string) []fw.TLCJob {
+				var out []fw.TLCJob
+				for _, l := range parts {
+					p := j
+					p.Consts = map[string]string{}
+					for k, v := range j.Consts {
+						p.Consts[k] = v
+					}
+					p.Consts["LIMS"] = l
+					p.Name = j.Name[:len(j.Name)-1] + ",lim " + l + ")"
+					out = append(out, p)
+				}
+				return out
 			}
 			kinds := func(j fw.TLCJob) fw.TLCJob { // every way the two legs arrive, tunnels that outlive the heartbeat / idle timeouts
 				j.Consts["AK"], j.Consts["HOLD"], j.Consts["SK"] = `{"local", "pkt", "xnode", "fwd"}`, "TRUE", `{"direct", "pkt"}`
@@ -578,23 +620,29 @@ func main() {
 			// "or the deviation happened" form); as-needed = limiter waits split, forwarder snapshot,
 			// replaced source closed (strict clauses, nothing excused)
 			if env.Tier == "thorough" {
-				return []fw.TLCJob{
-					mc("mc:as-found(S=2,replace)", "Bridge_mc.cfg", "2", "TRUE", "TRUE", cls),
-					mc("mc:as-found(S=3)", "Bridge_mc.cfg", "3", "FALSE", "TRUE", cls),
+				// (three writes: without the "large" class - a limiter that never waits, the no-limit state space once more with
+				// one step added per chunk; it stays in every job with fewer writes)
+				jobs := split(mc("mc:as-found(S=3)", "Bridge_mc.cfg", "3", "FALSE", "TRUE", cls), `{"none"}`, `{"tiny", "edge"}`)
+				jobs = append(jobs, split(mc("mc:as-found(S=2,replace)", "Bridge_mc.cfg", "2", "TRUE", "TRUE", cls), `{"none", "large"}`, `{"tiny", "edge"}`)...)
+				return append(jobs,
 					cov(mc("mc:as-needed(S=2,replace)", "Bridge_fixed.cfg", "2", "TRUE", "TRUE", cls)),
-					mc("live:as-found(S=1,replace)", "Bridge_live.cfg", "1", "TRUE", "TRUE", cls),
+					classes(mc("mc:as-found(S=1,replace,error classes)", "Bridge_mc.cfg", "1", "TRUE", "TRUE", cls)),
+					classes(mc("mc:as-needed(S=1,replace,error classes)", "Bridge_fixed.cfg", "1", "TRUE", "TRUE", cls)),
+					classes(mc("live:as-needed(S=1,error classes,{1,32K+1})", "Bridge_live_fixed.cfg", "1", "FALSE", "TRUE", small)),
+					classes(kinds(mc("mc:as-needed(S=1,attach kinds,error classes,{1,32K+1})", "Bridge_fixed.cfg", "1", "FALSE", "TRUE", small))),
+					mc("live:as-found(S=1,replace,{1,32K+1})", "Bridge_live.cfg", "1", "TRUE", "TRUE", small),
 					mc("live:as-found(S=2,{1,32K+1})", "Bridge_live.cfg", "2", "FALSE", "TRUE", small),
 					mc("live:as-needed(S=1,replace)", "Bridge_live_fixed.cfg", "1", "TRUE", "TRUE", cls),
 					mc("live:as-needed(S=2,{1,32K+1})", "Bridge_live_fixed.cfg", "2", "FALSE", "TRUE", small),
 					kinds(mc("mc:as-found(S=1,attach kinds)", "Bridge_mc.cfg", "1", "FALSE", "TRUE", cls)),
 					kinds(mc("mc:as-needed(S=1,attach kinds)", "Bridge_fixed.cfg", "1", "TRUE", "TRUE", cls)),
 					kinds(mc("live:as-needed(S=1,attach kinds,{1,32K+1})", "Bridge_live_fixed.cfg", "1", "FALSE", "TRUE", small)),
-				}
+				)
 			}
 			return []fw.TLCJob{
-				mc("mc:as-found(S=2,replace,{1,32K+1},no faults)", "Bridge_mc.cfg", "2", "TRUE", "FALSE", small),
-				kinds(mc("mc:as-needed(S=1,attach kinds,{32K+1})", "Bridge_fixed.cfg", "1", "FALSE", "TRUE", `{"Bp1"}`)),
-				mc("live:as-found(S=1,replace,{1,32K+1},no faults)", "Bridge_live.cfg", "1", "TRUE", "FALSE", small),
+				classes(mc("mc:as-found(S=2,replace,{1,32K+1},no faults)", "Bridge_mc.cfg", "2", "TRUE", "FALSE", small)),
+				tmo(kinds(mc("mc:as-needed(S=1,attach kinds,{32K+1})", "Bridge_fixed.cfg", "1", "FALSE", "TRUE", `{"Bp1"}`))),
+				tmo(mc("live:as-found(S=1,replace,{1,32K+1},no faults)", "Bridge_live.cfg", "1", "TRUE", "FALSE", small)),
 			}
 		},
 		GenJobs: func(env *fw.Env) []fw.TLCJob {
@@ -608,7 +656,7 @@ func main() {
 			}
 			gen := func(name, maxs, lims, c, faults, repl, ext string) fw.TLCJob {
 				return fw.TLCJob{Name: name, Module: "Bridge", Cfg: "Bridge_gen.cfg", Workers: 1, // one worker: breadth-first order (and so the script chosen per state) is reproducible
-					Consts: map[string]string{"MAXS": maxs, "LIMS": lims, "CLS": c, "FAULTS": faults, "REPL": repl, "EXT": ext, "DEVLIM": devlim, "MAXSLOW": "5", "AK": `{"local"}`, "HOLD": "FALSE", "SK": `{"direct"}`}}
+					Consts: map[string]string{"MAXS": maxs, "LIMS": lims, "CLS": c, "FAULTS": faults, "REPL": repl, "EXT": ext, "DEVLIM": devlim, "MAXSLOW": "5", "AK": `{"local"}`, "HOLD": "FALSE", "SK": `{"direct"}`, "EC": `{"plain"}`, "POLL": "TRUE"}}
 			}
 			sim := func(n int) fw.TLCJob {
 				j := gen("sim:S3", "3", all, cls, "TRUE", "FALSE", "TRUE")
@@ -642,7 +690,11 @@ func main() {
 			// (S: 64 KiB and T: 32 KiB or the reverse, ~4 s)
 			paced := gen("gen:paced", "2", `{"tiny", "slow"}`, `{"B", "big"}`, "FALSE", "FALSE", "FALSE")
 			paced.Consts["MAXSLOW"] = "9"
-			jobs = append(jobs, att, spk, paced)
+			att.Consts["EC"], spk.Consts["EC"] = `{"plain", "tmo", "tmp"}`, `{"plain", "tmo", "tmp"}`
+			// an end fails for good with an error that says Timeout() / Temporary() about itself (the plain class is in every job)
+			errc := gen("gen:errc", "1", map[bool]string{true: `{"none", "edge"}`, false: `{"none"}`}[env.Tier == "thorough"], `{"one", "Bp1"}`, "TRUE", "FALSE", "FALSE")
+			errc.Consts["EC"] = `{"tmo", "tmp"}`
+			jobs = append(jobs, att, spk, errc, paced)
 			if env.Tier == "thorough" {
 				return append(jobs, gen("gen:S2full", "2", all, cls, "FALSE", "FALSE", "FALSE"), sim(40))
 			}
@@ -685,6 +737,7 @@ func main() {
 			"the target attached directly (SetTargetConnection), through the packet path (Handshake, TunnelOpen -> handleExistingBridge), from another node (CrossNodeListener, free running) and " +
 			"with this server as the target's node (forwardToSourceNode, free running), the source leg by startSourceBridge or through the packet path (handleSourceBridge): one script per (state, step) with <=1 write, " +
 			"the scripts that outlive the heartbeat / idle timeouts always; the minimal scripts in which a chunk is written while the statistics backend does not answer, gated and free running with 1 MiB + 32 KiB + 1 bytes; " +
+			"gen:errc: the scripts in which an end fails for good with an error that says Timeout() / Temporary() about itself - the minimal ones (other end idle / has sent / before the attach; <=5 steps, no other fault) always, gated and free running, a seeded share of the rest; " +
 			"non-trivial = a trace with a delivery or closure observation",
 		Assumptions: []string{
 			"model buffer BUF=3 stands for the 32 KiB copy buffer; size classes map to {1, 32K-1, 32K, 32K+1, 64K (gated or paced) / 1 MiB (free, unpaced)} bytes",
@@ -705,6 +758,9 @@ func main() {
 				"both ends writing a byte every 100 ms, then one tick of its 30 s sweep (cleanupIdleConnections, bound by go:linkname); a tunnel that is SILENT beyond the idle timeout is not demanded to survive; thorough: 31 s holds with traffic for every way the legs arrive",
 			"this server as the target's node: the source end is the cross-node TCP connection (the driver plays the source's node: listener, TargetReady frame expected first), forgotten = TunnelConnectionManager.GetConnection(tunnel) is nil",
 			"an end whose connection is TCP (xnode target, fwd source) observes closure when it reads end-of-stream or an error, and then closes its side (what a peer node / a client does); a fake connection that is half-closed by the server (CloseWrite) observes closure likewise",
+			"error classes: a failed end returns its error on every further Read / Write; the error is a net.Error that says nothing (no Timeout/Temporary methods), Timeout() but not Temporary(), or Temporary() but not Timeout(); " +
+				"a polling transport (glitch tp) returns (0, Timeout() and Temporary()) every 2 ms while idle (free running phases only); ends played over TCP (xnode target, fwd source) fail with a reset only",
+			"Calls = Read / Write calls the server made on an end's connection after it had failed, counted until the end of the watch (a spinning caller is slowed to 1 call/ms after 200 calls); more than 4 is a busy loop (model: at most 2 per direction)",
 			"once the target is attached a stalled statistics backend also stalls GetPortMapping (before that it would only delay the set-up of the tunnel, which is not judged)",
 			"the generator follows the limiter variant (error / split waits on n > burst) that a probe on the real code shows; both variants are model-checked",
 		},
